@@ -143,6 +143,13 @@ def _run(tier, seed, harness, d):
             for li0, ln in enumerate(lines):
                 if ln["ev"] == "Tx":
                     counts[_classify(ln, lines[li0 - 1])] += 1
+                    tt = ln["a"]["t"]
+                    if tt["to"] == "c" and ln["o"]["code"] == 0 and not ln["o"]["vmfail"]:
+                        # storage histories and whether the minimum-gas floor bound (refund counter > 0 only for "clear")
+                        w0, w1 = int(lines[li0 - 1]["st"]["stor"]["c"]), int(tt["word"])
+                        trn = "noop" if w0 == w1 else "set" if w0 == 0 else "clear" if w1 == 0 else "overwrite"
+                        flo = int(lines[0]["cfg"]["mult"]) * int(tt["gas"]) // 10**18
+                        counts["Store:%s:%s:%s" % (trn, tt["ty"], "floor-binds" if ln["o"]["gu"] == flo else "above-floor")] += 1
                     distinct.add(json.dumps([ln["a"]["k"], ln["o"]], sort_keys=True))
                 elif ln["ev"] == "Batch":
                     o = ln["o"]
